@@ -27,9 +27,21 @@ static mut SUIRON_STOP_QUERY: bool = false;
 /// ```
 pub fn start_query_timer(milliseconds: u64) -> ThreadTimer {
     unsafe { SUIRON_STOP_QUERY = false; }
+    #[cfg(suiron_verif)]
+    crate::verif_hooks::tlog("timer_start");
     let timer = ThreadTimer::new();
     timer.start(Duration::from_millis(milliseconds),
-                move || { stop_query(); }).unwrap();
+                move || {
+                    #[cfg(suiron_verif)]
+                    {
+                        crate::verif_hooks::tlog("expired");
+                        crate::verif_hooks::before_timer_callback();
+                        crate::verif_hooks::tlog("fire_begin");
+                    }
+                    stop_query();
+                    #[cfg(suiron_verif)]
+                    crate::verif_hooks::tlog("fire_end");
+                }).unwrap();
     return timer;
 } // start_query_timer()
 
@@ -45,9 +57,17 @@ pub fn start_query_timer(milliseconds: u64) -> ThreadTimer {
 /// cancel_timer(timer);
 /// ```
 pub fn cancel_timer(timer: ThreadTimer) {
+    #[cfg(suiron_verif)]
+    crate::verif_hooks::tlog("cancel_begin");
     match timer.cancel() {
-        Ok(_) => {},
-        Err(_) => {},
+        Ok(_) => {
+            #[cfg(suiron_verif)]
+            crate::verif_hooks::tlog("cancel_end_ok");
+        },
+        Err(_) => {
+            #[cfg(suiron_verif)]
+            crate::verif_hooks::tlog("cancel_end_notwaiting");
+        },
     }
 } // cancel_timer()
 
